@@ -12,12 +12,27 @@ import xarray as xr
 from harness import util
 from harness.gen import datasets as G
 from harness.gen import geomspec as S
+from harness.gen import c19_extra6 as X6          # [strengthen-6] attributes on the variables; histories of artists
 
 ID = 'C19'
 MODULE = 'EmsModel.Props.C19'
 DRIVER = 'C19'
 REQUIRED = ['Ems.C19.collection_pairs', 'Ems.C19.collection_at', 'Ems.C19.collection_lengths', 'Ems.C19.clim_spec',
             'Ems.C19.clim_none_iff', 'Ems.C19.overrides_spec', 'Ems.C19.quiver_spec']
+EXTRA_MODULES = globals().get('EXTRA_MODULES', []) + ['EmsModel.Props.C19More']   # B6 (Core/PlotRavel.lean: ravel + extra-dimension test)
+REQUIRED += ['Ems.C19.extra_dims_refused', 'Ems.C19.extra_dims_never_ok', 'Ems.C19.exact_dims_plotted',
+             'Ems.C19.quiver_dims_refused', 'Ems.C19.collection_holes_skip', 'Ems.C19.clim_within_values',
+             'Ems.C19.collection_perm_invariant']
+# [strengthen-6] histories of artists (Core/PlotHistory.lean): a call after any history hands out the fresh artist, an edit concerns one artist
+EXTRA_MODULES = list(globals().get('EXTRA_MODULES', [])) + ['EmsModel.Props.C19Hist']
+REQUIRED += ['Ems.C19.history_build_fresh', 'Ems.C19.history_build_last', 'Ems.C19.history_edit_local', 'Ems.C19.history_edit_at',
+             'Ems.C19.history_untouched']
+# [/strengthen-6]
+# [B7] make_poly_collection / make_quiver / polygons_to_collection translated from the source (harness/trans_plotsrc.py -> Gen/PlotSrc.lean)
+EXTRA_MODULES = list(globals().get('EXTRA_MODULES', [])) + ['EmsModel.Props.C19Src']
+REQUIRED += ['Ems.C19.src_poly_collection_spec', 'Ems.C19.src_quiver_spec', 'Ems.C19.src_quiver_default',
+             'Ems.C19.src_collection_spec', 'Ems.C19.src_no_complaints', 'Ems.C19.src_poly_paths_and_values_share_mask']
+# [/B7]
 RULE = ('datasets of every convention with and without holes / invalid cells, tagged face variables with missing values: '
         'make_poly_collection by name and as (possibly transposed) DataArray, with no data, with leftover dimensions, with '
         'array= / clim= / transform= overrides, with styling keywords (edgecolor / edgecolors / cmap / linewidth / alpha ...: what '
@@ -25,7 +40,13 @@ RULE = ('datasets of every convention with and without holes / invalid cells, ta
         'a narrow range on a large offset, tiny, huge, negated, one single value), each variable held in memory in one of many '
         'ways that keep every value (float64 / float32 / int16..64 where exact, native or the other byte order, C / Fortran / '
         'strided / reversed / read-only / dask-chunked); make_quiver with u, v by name or arrays '
-        '(and without values). Agg backend. '
+        '(and without values). Every variable may carry metadata attributes (units, long_name, standard_name, cell_methods, and ones that '
+        'name a range: actual_range / valid_range / valid_min / valid_max / colorBarMinimum / colorBarMaximum, written from the whole '
+        'stored variable, from a wider nominal range, or before the values were rescaled), which xarray keeps on the slice that is plotted. '
+        'Histories on one convention in which the caller uses the artists it was handed: calls (no data / by name / array / transposed / '
+        'styled / clim= / plot_on_figure / a slice of the variable with a leftover dimension / make_quiver) alternate with in-place edits '
+        'of an artist handed out earlier (vertices shifted or rescaled, values overwritten, set_clim); every call is judged when made, '
+        'every untouched artist again at the end, and the final state of all collections goes to the model (`history` op). Agg backend. '
         'Compared: path vertices, get_array, get_clim of the real PolyCollection; X, Y, U, V of the real Quiver. '
         'Non-trivial: dataset with a cell without polygon before a cell with one, or an override / styling keyword, or the collection taken off a figure; distinct by (recipe, call).')
 TRUSTED = ['matplotlib PolyCollection / Quiver store what they are given (rendering is matplotlib\'s)']
@@ -150,6 +171,7 @@ def build(recipe):
             nda = nda.chunk({d: 1 for d in da.dims})
         ds[name] = nda
     built.ds = ds
+    X6.apply_attrs(built, recipe)          # [strengthen-6] metadata attributes recipe['c19']['attrs'] (no value changes)
     return built
 
 
@@ -236,6 +258,9 @@ def examine(ctx, recipe, items) -> None:
         except LookupError:
             pc, out = None, 'NoCollection'
         items.append((line, out, {**desc, 'op': line, 'call': label}))
+        # [B7] the same call against the program translated from the source text (Gen/PlotSrc.lean, driver op `srccollection`)
+        items.append(('src' + line, out, {**desc, 'op': 'src' + line, 'call': label + ' [generated program]'}))
+        # [/B7]
         # the property's last clause, stated directly: a variable with leftover non-spatial dimensions is refused
         if model_vals == 'extra' and pc is not None:
             ctx.oracle_fail('leftover-dimensions-not-refused', {**desc, 'call': label, 'var': str(data)},
@@ -302,6 +327,8 @@ def examine(ctx, recipe, items) -> None:
         for label, pc, clim_given, excused in calls:
             if pc is not None:
                 oracle(pc, label, name, flat, clim_given, excused)
+    # ---- [strengthen-6] histories: the caller uses the artists it was handed, then asks for more ----------
+    X6.play_artist_history(ctx, recipe, built, c, kept, style, desc, items)
     # ---- quiver ---------------------------------------------------------------------------------------
     # components with a leftover non-spatial dimension are refused, whatever that dimension's length
     leftover = [n for n in face_vars if len(built.vars[n].dims) > len(gd)]
@@ -427,7 +454,7 @@ def history_case(ctx, recipe) -> None:
     ctx.nontrivial((str(recipe), 'history'))
 
 
-def make_recipe(ctx, k, held_rng=None):
+def make_recipe(ctx, k, held_rng=None, x6_rng=None):
     rng = ctx.rng
     conv = G.CONVS[k % len(G.CONVS)]
     kw = {'max_w': 3, 'max_h': 2, 'coords_as': 'vars', 'face_coords': rng.choice([None, 'vars'])} if conv == 'ugrid' else {'max_n': 4}
@@ -458,6 +485,9 @@ def make_recipe(ctx, k, held_rng=None):
     recipe['c19'] = {'style': dict(rng.choice(STYLES)), 'values': {v['name']: random_value_map(rng) for v in vars_}}
     if held_rng is not None:
         recipe['c19']['held'] = {v['name']: random_held(held_rng) for v in vars_}
+    if x6_rng is not None:          # [strengthen-6] (a stream of its own, as for the representations)
+        recipe['c19']['attrs'] = {v['name']: X6.random_attrs(x6_rng) for v in vars_}
+        recipe['c19']['artists'] = X6.random_artist_history(x6_rng)
     return recipe
 
 
@@ -466,8 +496,9 @@ def run(ctx) -> None:
     # (the representations are drawn from a stream of their own, forked off ctx.rng's starting state without consuming
     # it: the recipes themselves stay the ones this check has always generated for a given VERIF_SEED)
     held_rng = random.Random('C19 held ' + ','.join(str(x) for x in ctx.rng.getstate()[1][:8]))
+    x6_rng = random.Random('C19 extra6 ' + ','.join(str(x) for x in ctx.rng.getstate()[1][:8]))          # [strengthen-6]
     for k in range(ctx.budget(40, 400)):
-        recipe = make_recipe(ctx, k, held_rng)
+        recipe = make_recipe(ctx, k, held_rng, x6_rng)
         ctx.guarded(lambda: examine(ctx, recipe, items), {'recipe': recipe})
         if k % 5 == 4:
             ctx.guarded(lambda: history_case(ctx, recipe), {'recipe': recipe, 'history': True})
